@@ -24,6 +24,17 @@ def handle (j : Json) : IO Unit := do
   let contacted := (jstrList (jget impl "contacted")).eraseDups
   let os := owners (normaliseType p)
   let tys := String.intercalate "," (eps.map (fun e => e.ty ++ (if e.healthy then "" else "(down)")))
+  if kind == "crossfire" then
+    -- two providers' clients at once: by C11_contained (and incompatible types) nothing a client sends on one
+    -- provider's prefix reaches the other provider's endpoint
+    if jstr (jget impl "start_err") != "" then emit case false true "start-error" "" (jstr (jget impl "start_err")); return
+    let strays := jnat (jget impl "strays")
+    let tys := jstrList (jget j "types")
+    let incompatible := !(codeCompat (tys.getD 0 "") (tys.getD 1 "")) && !(codeCompat (tys.getD 1 "") (tys.getD 0 ""))
+    let ok := strays == 0 || !incompatible
+    emit case ok ok "crossfire" (if ok then "" else "provider-route-left-its-provider-under-concurrency")
+      (if ok then "" else s!"endpoints {tys}, {jnat (jget impl "clients")} concurrent clients x {jnat (jget impl "rounds")} rounds: {strays} of {jnat (jget impl "requests_seen")} requests reached the other provider's backend; {jstr (jget impl "first")}")
+    return
   if kind == "proxy" then
     let model := jstr (jget j "model")
     -- model: one outcome per possible answer of the prefix lookup; the later stages only narrow
